@@ -253,6 +253,26 @@ func (r *rewriter) hooksIn(e ast.Node) []ast.Stmt {
 					r.mapW[x.Args[0]] = true
 				}
 			}
+			// package-level objects of foreign types (big.Int constants, scratch buffers, hashers) used through
+			// method calls: the variable is never assigned, yet the object behind it may be mutated
+			if sel, ok := x.Fun.(*ast.SelectorExpr); ok {
+				if id, ok := sel.X.(*ast.Ident); ok {
+					if v := r.foreignPkgVar(id); v != nil {
+						kind := 1
+						if n := namedOf(v.Type()); n != nil && n.Obj().Pkg().Path() == "math/big" && bigReadOnly[sel.Sel.Name] {
+							kind = 0
+						}
+						out = append(out, r.objStmt(id, v, kind))
+					}
+				}
+			}
+			for _, a := range x.Args {
+				if id, ok := a.(*ast.Ident); ok {
+					if v := r.foreignPkgVar(id); v != nil {
+						out = append(out, r.objStmt(id, v, 0))
+					}
+				}
+			}
 		case *ast.UnaryExpr:
 			if x.Op == token.AND {
 				if sel, ok := x.X.(*ast.SelectorExpr); ok {
@@ -316,6 +336,40 @@ func (r *rewriter) hooksIn(e ast.Node) []ast.Stmt {
 		return true
 	})
 	return out
+}
+
+var bigReadOnly = map[string]bool{"Cmp": true, "CmpAbs": true, "Sign": true, "Bytes": true, "Int64": true, "Uint64": true, "IsInt64": true, "IsUint64": true,
+	"BitLen": true, "Bit": true, "Bits": true, "String": true, "Text": true, "Append": true, "Format": true, "FillBytes": true, "ProbablyPrime": true,
+	"TrailingZeroBits": true, "MarshalText": true, "MarshalJSON": true, "GobEncode": true, "Float64": true}
+
+// foreignPkgVar: id names a package-level variable of this package whose (pointed-to) type is a struct-like
+// named type defined outside the module.
+func (r *rewriter) foreignPkgVar(id *ast.Ident) *types.Var {
+	v, ok := r.p.info.Uses[id].(*types.Var)
+	if !ok || v.Parent() != r.p.pkg.Scope() {
+		return nil
+	}
+	n := namedOf(v.Type())
+	if n == nil || n.Obj().Pkg() == nil || inModule(n) || n.Obj().Pkg().Path() == "verif/simrt" {
+		return nil
+	}
+	switch n.Underlying().(type) {
+	case *types.Struct, *types.Interface:
+		return v
+	}
+	return nil
+}
+
+func (r *rewriter) objStmt(id *ast.Ident, v *types.Var, kind int) ast.Stmt {
+	r.usedRT = true
+	stats["accobj"]++
+	var arg ast.Expr = ast.NewIdent(id.Name)
+	if _, isPtr := v.Type().(*types.Pointer); !isPtr {
+		if _, isIface := v.Type().Underlying().(*types.Interface); !isIface {
+			arg = &ast.UnaryExpr{Op: token.AND, X: arg}
+		}
+	}
+	return rtCall("AccObj", arg, intLit(kind), strLit(id.Name+"@"+posStr(id.Pos())))
 }
 
 func (r *rewriter) sharedField(s *types.Selection) bool {
